@@ -1,6 +1,6 @@
 From stdpp Require Import gmap.
 From Coq Require Import NArith Lia.
-From RV Require Import Ingress.IngressModel Rib.RibModel Bmp.BmpModel Pipe.PipeModel E2e.E2eModel.
+From RV Require Import Ingress.IngressModel Ingress.IngressProofs Rib.RibModel Rib.RibProofs Bmp.BmpModel Pipe.PipeModel E2e.E2eModel.
 
 (* connections accepted = connections lost + routers connected now, after every history;
    and only connected routers have state-machine metrics *)
@@ -553,3 +553,642 @@ Theorem reload_starts_vribs_nth st i :
   nth_error (es_vribs (e_step false st EReload)) i =
   Some (MkVrib (ef_script (es_file st)) (length (es_scripts st)) (length (es_scripts st)) (length (es_scripts st))).
 Proof. rewrite <- lookup_nth_error. apply reload_starts_vribs. Qed.
+
+
+(* ------------------------------------------------------------------ *)
+(* Ingress units that a reload removes and adds *)
+
+Definition wd_ids (w : world) (key : N) : list N :=
+  match w_routers w !! key with
+  | Some (rid, _) => reg_ids_for_parent (w_reg w) rid
+  | None => []
+  end.
+
+Lemma removed_ids_flat w keys : removed_ids w keys = flat_map (wd_ids w) keys.
+Proof. reflexivity. Qed.
+
+Definition wdall (r : rib) (ms : list N) : rib := fold_left (fun r m => rib_withdraw_mui r m None) ms r.
+
+Lemma wdall_app r a b : wdall r (a ++ b) = wdall (wdall r a) b.
+Proof. unfold wdall. apply fold_left_app. Qed.
+
+(* the end of one connection, as every RIB unit sees it *)
+Lemma runit_see_disconnect r w key :
+  runit_see r (wstep w (WDisconnect key)).2 =
+  MkRunit (ru_filter r) (ru_born r) (wdall (ru_rib r) (wd_ids w key)).
+Proof.
+  unfold wd_ids. cbn [wstep]. destruct (w_routers w !! key) as [[rid s]|]; cbn [snd].
+  - unfold runit_see. cbn [upd_of runit_apply filter_update rib_apply]. reflexivity.
+  - unfold runit_see. cbn [upd_of wdall fold_left]. destruct r; reflexivity.
+Qed.
+
+Lemma wstep_disconnect_world w key :
+  w_reg (wstep w (WDisconnect key)).1 = w_reg w /\
+  w_routers (wstep w (WDisconnect key)).1 = delete key (w_routers w) /\
+  w_unit (wstep w (WDisconnect key)).1 = w_unit w.
+Proof.
+  cbn [wstep]. destruct (w_routers w !! key) as [[rid s]|] eqn:E; cbn [fst w_reg w_routers w_unit].
+  - repeat split.
+  - repeat split. symmetry. apply delete_notin. exact E.
+Qed.
+
+Lemma e_step_disconnect st key :
+  let st' := e_step false st (EW (WDisconnect key)) in
+  es_rib st' = MkRunit (ru_filter (es_rib st)) (ru_born (es_rib st)) (wdall (ru_rib (es_rib st)) (wd_ids (es_w st) key)) /\
+  es_rib2 st' = option_map (fun r => MkRunit (ru_filter r) (ru_born r) (wdall (ru_rib r) (wd_ids (es_w st) key))) (es_rib2 st) /\
+  w_reg (es_w st') = w_reg (es_w st) /\
+  w_routers (es_w st') = delete key (w_routers (es_w st)) /\
+  w_unit (es_w st') = w_unit (es_w st) /\
+  es_file st' = es_file st /\ es_scripts st' = es_scripts st /\ es_compiled st' = es_compiled st /\
+  es_rib2kind st' = es_rib2kind st /\ es_vribs st' = es_vribs st.
+Proof.
+  cbn zeta. pose proof (runit_see_disconnect (es_rib st) (es_w st) key) as H1.
+  pose proof (wstep_disconnect_world (es_w st) key) as (Hr & Hm & Hu).
+  cbn [e_step]. destruct (wstep (es_w st) (WDisconnect key)) as [w' out] eqn:Ew.
+  cbn [fst snd] in *. cbn [es_rib es_rib2 es_w es_file es_scripts es_compiled es_rib2kind es_vribs].
+  split; [exact H1|]. split.
+  { destruct (es_rib2 st) as [r2|]; [|reflexivity]. cbn [option_map]. f_equal.
+    pose proof (runit_see_disconnect r2 (es_w st) key) as H2. rewrite Ew in H2. exact H2. }
+  repeat split; assumption.
+Qed.
+
+Definition disc_ops (keys : list N) : list eop := map (fun k => EW (WDisconnect k)) keys.
+
+Lemma wd_ids_other w w' key :
+  w_reg w' = w_reg w -> w_routers w' !! key = w_routers w !! key -> wd_ids w' key = wd_ids w key.
+Proof. intros Hr Hk. unfold wd_ids. rewrite Hr, Hk. reflexivity. Qed.
+
+(* the end of the connections of a set of routers: every RIB unit applies the withdrawal of the ids registered under
+   those routers, the sessions are gone, nothing else moves *)
+Lemma e_run_disconnects keys : forall st, NoDup keys ->
+  let st' := fold_left (e_step false) (disc_ops keys) st in
+  es_rib st' = MkRunit (ru_filter (es_rib st)) (ru_born (es_rib st)) (wdall (ru_rib (es_rib st)) (removed_ids (es_w st) keys)) /\
+  es_rib2 st' = option_map (fun r => MkRunit (ru_filter r) (ru_born r) (wdall (ru_rib r) (removed_ids (es_w st) keys))) (es_rib2 st) /\
+  w_reg (es_w st') = w_reg (es_w st) /\
+  (forall key, w_routers (es_w st') !! key = if bool_decide (key ∈ keys) then None else w_routers (es_w st) !! key) /\
+  w_unit (es_w st') = w_unit (es_w st) /\
+  es_file st' = es_file st /\ es_scripts st' = es_scripts st /\ es_compiled st' = es_compiled st /\
+  es_rib2kind st' = es_rib2kind st /\ es_vribs st' = es_vribs st.
+Proof.
+  induction keys as [|a keys IH]; intros st Hnd; cbn zeta.
+  - cbn [disc_ops map fold_left removed_ids flat_map wdall]. split; [destruct (es_rib st); reflexivity|].
+    split; [destruct (es_rib2 st) as [[? ? ?]|]; reflexivity|].
+    repeat split; try (intros key; rewrite bool_decide_false by set_solver; reflexivity).
+  - apply NoDup_cons in Hnd as [Ha Hnd].
+    cbn [disc_ops map fold_left]. fold (disc_ops keys).
+    pose proof (e_step_disconnect st a) as (S1 & S2 & S3 & S4 & S5 & S6 & S7 & S8 & S9 & S10).
+    specialize (IH (e_step false st (EW (WDisconnect a))) Hnd). cbn zeta in IH.
+    destruct IH as (I1 & I2 & I3 & I4 & I5 & I6 & I7 & I8 & I9 & I10).
+    assert (Hids : removed_ids (es_w (e_step false st (EW (WDisconnect a)))) keys = removed_ids (es_w st) keys).
+    { rewrite !removed_ids_flat. clear -Ha S3 S4. induction keys as [|b keys IHk]; [reflexivity|].
+      apply not_elem_of_cons in Ha as [Hab Ha].
+      cbn [flat_map]. rewrite (IHk Ha). f_equal.
+      apply wd_ids_other; [exact S3|]. rewrite S4. apply lookup_delete_ne. exact Hab. }
+    rewrite Hids in I1, I2.
+    split; [|split].
+    + rewrite I1, S1. cbn [ru_filter ru_born ru_rib]. f_equal.
+      rewrite (removed_ids_flat _ (a :: keys)). cbn [flat_map]. rewrite wdall_app, <- removed_ids_flat. reflexivity.
+    + rewrite I2, S2. destruct (es_rib2 st) as [r2|]; [|reflexivity]. cbn [option_map ru_filter ru_born ru_rib]. f_equal. f_equal.
+      rewrite (removed_ids_flat _ (a :: keys)). cbn [flat_map]. rewrite wdall_app, <- removed_ids_flat. reflexivity.
+    + split; [rewrite I3; exact S3|]. split.
+      { intros key. rewrite I4, S4. destruct (decide (key = a)) as [->|Hne].
+        - rewrite lookup_delete. rewrite (bool_decide_true (a ∈ a :: keys)) by apply elem_of_list_here.
+          destruct (bool_decide (a ∈ keys)); reflexivity.
+        - rewrite lookup_delete_ne by congruence.
+          destruct (decide (key ∈ keys)) as [Hin|Hin].
+          + rewrite (bool_decide_true (key ∈ keys)) by exact Hin.
+            rewrite (bool_decide_true (key ∈ a :: keys)) by (apply elem_of_list_further; exact Hin). reflexivity.
+          + rewrite (bool_decide_false (key ∈ keys)) by exact Hin.
+            rewrite (bool_decide_false (key ∈ a :: keys)) by (apply not_elem_of_cons; split; assumption). reflexivity. }
+      split; [rewrite I5; exact S5|]. split; [rewrite I6; exact S6|]. split; [rewrite I7; exact S7|].
+      split; [rewrite I8; exact S8|]. split; [rewrite I9; exact S9|]. rewrite I10; exact S10.
+Qed.
+
+Definition unit1_keys (g : N) : list N := map (src_key g) unit1_addrs.
+
+Lemma unit1_keys_val g : unit1_keys g = [0 + 8 * g; 1 + 8 * g; 2 + 8 * g; 3 + 8 * g]%N.
+Proof. reflexivity. Qed.
+
+Lemma unit1_keys_nodup g : NoDup (unit1_keys g).
+Proof.
+  rewrite unit1_keys_val.
+  repeat (apply NoDup_cons; split; [rewrite ?not_elem_of_cons; repeat split; try lia; apply not_elem_of_nil|]).
+  apply NoDup_nil_2.
+Qed.
+
+Lemma elem_of_unit1_keys g key : key ∈ unit1_keys g <-> exists k, (k < 4)%N /\ key = (k + 8 * g)%N.
+Proof.
+  rewrite unit1_keys_val. rewrite !elem_of_cons, elem_of_nil. split.
+  - intros [->|[->|[->|[->|[]]]]]; eexists; (split; [|reflexivity]); lia.
+  - intros (k & Hk & ->).
+    assert (k = 0 \/ k = 1 \/ k = 2 \/ k = 3)%N as [->|[->|[->| ->]]] by lia; auto.
+Qed.
+
+Lemma i_removal_ops_val st :
+  is_run st = true -> is_want st = false -> i_removal_ops st = disc_ops (unit1_keys (is_gen st)).
+Proof.
+  intros Hr Hw. unfold i_removal_ops, disc_ops, unit1_keys. rewrite Hr, Hw. cbn [andb negb].
+  rewrite map_map. reflexivity.
+Qed.
+
+(* e_step EReload moves neither the pipeline model's world nor unit `rib` *)
+Lemma e_step_reload_keeps lg st :
+  es_w (e_step lg st EReload) = es_w st /\ es_rib (e_step lg st EReload) = es_rib st /\ es_s (e_step lg st EReload) = es_s st.
+Proof. repeat split. Qed.
+
+(* What the reload that takes bmp-in out does (the code as repaired): exactly the withdrawal of the ingress ids
+   registered under the routers that were connected to it - in unit `rib`, whatever it holds ... *)
+Theorem removal_is_the_withdrawal_of_its_sessions st :
+  is_run st = true -> is_want st = false ->
+  let st' := i_step false st (IE EReload) in
+  let ids := removed_ids (es_w (is_e st)) (unit1_keys (is_gen st)) in
+  is_run st' = false /\
+  ru_filter (es_rib (is_e st')) = ru_filter (es_rib (is_e st)) /\
+  ru_rib (es_rib (is_e st')) = wdall (ru_rib (es_rib (is_e st))) ids /\
+  (forall key, rib_lookup (ru_rib (es_rib (is_e st'))) key =
+     if existsb (fun m => down_hits m None key) ids
+     then match rib_lookup (ru_rib (es_rib (is_e st))) key with Some (_, a) => Some (false, a) | None => None end
+     else rib_lookup (ru_rib (es_rib (is_e st))) key) /\
+  w_reg (es_w (is_e st')) = w_reg (es_w (is_e st)) /\
+  (forall key, w_routers (es_w (is_e st')) !! key =
+     if bool_decide (key ∈ unit1_keys (is_gen st)) then None else w_routers (es_w (is_e st)) !! key).
+Proof.
+  intros Hr Hw. cbn zeta. cbn [i_step]. unfold i_remove. rewrite Hr, Hw. cbn [andb negb].
+  rewrite (i_removal_ops_val st Hr Hw).
+  pose proof (e_run_disconnects (unit1_keys (is_gen st)) (is_e st) (unit1_keys_nodup _)) as H. cbn zeta in H.
+  destruct H as (H1 & _ & H3 & H4 & _).
+  set (e1 := fold_left (e_step false) (disc_ops (unit1_keys (is_gen st))) (is_e st)) in *.
+  cbn [is_run is_e andb].
+  destruct (e_step_reload_keeps false e1) as (Kw & Kr & _). rewrite Kw, Kr, H1. cbn [ru_filter ru_rib].
+  split; [reflexivity|]. split; [reflexivity|]. split; [reflexivity|]. split.
+  - intros key. unfold wdall. apply withdraw_bulk_frame.
+  - split; [exact H3|exact H4].
+Qed.
+
+(* ... and in every other RIB unit that the reload keeps (a second rib unit of unchanged type) *)
+Theorem removal_reaches_second_rib st r :
+  is_run st = true -> is_want st = false ->
+  es_rib2 (is_e st) = Some r -> es_rib2kind (is_e st) = 1%N -> ef_rib2 (es_file (is_e st)) = 1%N ->
+  es_rib2 (is_e (i_step false st (IE EReload))) =
+  Some (MkRunit (ru_filter r) (ru_born r) (wdall (ru_rib r) (removed_ids (es_w (is_e st)) (unit1_keys (is_gen st))))).
+Proof.
+  intros Hr Hw H2 Hk Hf. cbn [i_step]. unfold i_remove. rewrite Hr, Hw. cbn [andb negb].
+  rewrite (i_removal_ops_val st Hr Hw).
+  pose proof (e_run_disconnects (unit1_keys (is_gen st)) (is_e st) (unit1_keys_nodup _)) as H. cbn zeta in H.
+  destruct H as (_ & H2' & _ & _ & _ & H6 & _ & _ & H9 & _).
+  set (e1 := fold_left (e_step false) (disc_ops (unit1_keys (is_gen st))) (is_e st)) in *.
+  cbn [is_e]. cbn [e_step es_rib2]. rewrite H9, H6, Hk, Hf. cbn [N.eqb Pos.eqb andb].
+  rewrite H2', H2. reflexivity.
+Qed.
+
+(* the routes of the removed unit's sessions: every record the RIB holds under an ingress id that is registered under
+   a router connected to bmp-in is reported withdrawn afterwards, with the attributes it had *)
+Theorem removed_unit_withdraws_its_routes st k rid s id key :
+  is_run st = true -> is_want st = false ->
+  (k < 4)%N -> w_routers (es_w (is_e st)) !! (k + 8 * is_gen st)%N = Some (rid, s) ->
+  id ∈ reg_ids_for_parent (w_reg (es_w (is_e st))) rid ->
+  k_mui key = id -> (k_fam key < 4)%N ->
+  rib_lookup (ru_rib (es_rib (is_e (i_step false st (IE EReload))))) key =
+  match rib_lookup (ru_rib (es_rib (is_e st))) key with Some (_, a) => Some (false, a) | None => None end.
+Proof.
+  intros Hr Hw Hk Hs Hid Hm Hf.
+  destruct (removal_is_the_withdrawal_of_its_sessions st Hr Hw) as (_ & _ & _ & H & _). cbn zeta in H.
+  rewrite H. replace (existsb _ _) with true; [reflexivity|]. symmetry.
+  apply existsb_exists. exists id. split.
+  - rewrite removed_ids_flat. apply in_flat_map. exists (k + 8 * is_gen st)%N. split.
+    + apply elem_of_list_In, elem_of_unit1_keys. exists k. split; [exact Hk|reflexivity].
+    + unfold wd_ids. rewrite Hs. apply elem_of_list_In. exact Hid.
+  - unfold down_hits. rewrite bool_decide_true by exact Hm. rewrite bool_decide_true by exact Hf. reflexivity.
+Qed.
+
+(* ... and nothing else: a record whose ingress id is not registered under one of those routers is reported as
+   before, the sessions of the other ingress unit (and their ids) are what they were, the register is untouched *)
+Theorem removal_spares_other_ingresses st :
+  is_run st = true -> is_want st = false ->
+  let st' := i_step false st (IE EReload) in
+  (forall key,
+     (forall k rid s, (k < 4)%N -> w_routers (es_w (is_e st)) !! (k + 8 * is_gen st)%N = Some (rid, s) ->
+                      k_mui key ∉ reg_ids_for_parent (w_reg (es_w (is_e st))) rid) ->
+     rib_lookup (ru_rib (es_rib (is_e st'))) key = rib_lookup (ru_rib (es_rib (is_e st))) key) /\
+  (forall k, on_unit1 k = false -> (k < 8)%N -> w_routers (es_w (is_e st')) !! k = w_routers (es_w (is_e st)) !! k) /\
+  w_reg (es_w (is_e st')) = w_reg (es_w (is_e st)).
+Proof.
+  intros Hr Hw. cbn zeta.
+  destruct (removal_is_the_withdrawal_of_its_sessions st Hr Hw) as (_ & _ & _ & H & Hreg & Hrt). cbn zeta in H, Hrt.
+  split; [|split; [|exact Hreg]].
+  - intros key Hno. rewrite H. replace (existsb _ _) with false; [reflexivity|]. symmetry.
+    apply not_true_is_false. intros Hex. apply existsb_exists in Hex as (m & Hin & Hd).
+    rewrite removed_ids_flat in Hin. apply in_flat_map in Hin as (kk & Hkk & Hin).
+    apply elem_of_list_In, elem_of_unit1_keys in Hkk as (k & Hk & ->).
+    unfold wd_ids in Hin. destruct (w_routers (es_w (is_e st)) !! (k + 8 * is_gen st)%N) as [[rid s]|] eqn:E; [|destruct Hin].
+    apply (Hno k rid s Hk E). apply elem_of_list_In.
+    unfold down_hits in Hd. apply andb_true_iff in Hd as [Hd _]. apply bool_decide_eq_true in Hd. rewrite Hd. exact Hin.
+  - intros k Hu Hk8. rewrite Hrt. rewrite bool_decide_false; [reflexivity|].
+    intros Hin. apply elem_of_unit1_keys in Hin as (k' & Hk' & ->).
+    unfold on_unit1 in Hu. apply N.ltb_ge in Hu. lia.
+Qed.
+
+(* ---- the reload that puts bmp-in back ---- *)
+
+(* it starts a NEW unit: the unit registers an ingress id of its own (the register's next), it is the next incarnation,
+   and nothing else moves - the RIB units keep what they hold (the withdrawn routes of the earlier unit's sessions
+   stay withdrawn), the sessions of the other ingress unit go on *)
+Theorem added_unit_is_a_new_parent lg st :
+  is_run st = false -> is_want st = true ->
+  let st' := i_step lg st (IE EReload) in
+  is_run st' = true /\ is_gen st' = (is_gen st + 1)%N /\
+  is_uid st' = serial (w_reg (es_w (is_e st))) /\
+  es_rib (is_e st') = es_rib (is_e st) /\
+  w_routers (es_w (is_e st')) = w_routers (es_w (is_e st)) /\
+  infos (w_reg (es_w (is_e st'))) = infos (w_reg (es_w (is_e st))).
+Proof.
+  intros Hr Hw. cbn zeta. cbn [i_step]. unfold i_remove. rewrite Hr, Hw. cbn [andb negb].
+  destruct (e_step_reload_keeps false (is_e st)) as (Kw & Kr & _).
+  unfold reg_register. rewrite Kw. cbn [is_run is_gen is_uid is_e es_map_w es_rib es_w w_set_reg w_routers w_reg infos].
+  rewrite Kr. repeat split.
+Qed.
+
+(* ---- no unit, no sessions: over all histories ---- *)
+
+Definition unit1_key (key : N) : bool := (key mod 8 <? 4)%N.
+
+(* every session of a router of bmp-in belongs to the unit that runs *)
+Definition sessions_ok (st : istate) : Prop :=
+  forall key, is_Some (w_routers (es_w (is_e st)) !! key) -> unit1_key key = true ->
+              is_run st = true /\ key ∈ unit1_keys (is_gen st).
+
+Lemma wstep_routers_dom w o key :
+  is_Some (w_routers (wstep w o).1 !! key) -> is_Some (w_routers w !! key) \/ o = WConnect key.
+Proof.
+  destruct o as [k|k m|k|b|b u|b|af pfx|k]; cbn [wstep].
+  - destruct (find_or_register _ _ _) as [rid r']. cbn [fst w_routers].
+    destruct (decide (key = k)) as [->|Hne]; [right; reflexivity|]. rewrite lookup_insert_ne by congruence. left. assumption.
+  - destruct (w_routers w !! k) as [[rid s]|] eqn:E; [|left; assumption].
+    destruct (sm_step _ _ _ _) as [[r' s'] out]. cbn [fst w_routers].
+    destruct (decide (key = k)) as [->|Hne]; [left; rewrite E; eauto|]. rewrite lookup_insert_ne by congruence. left. assumption.
+  - destruct (w_routers w !! k) as [[rid s]|] eqn:E; [|left; assumption]. cbn [fst w_routers].
+    destruct (decide (key = k)) as [->|Hne]; [rewrite lookup_delete; intros [x Hx]; discriminate|].
+    rewrite lookup_delete_ne by congruence. left. assumption.
+  - destruct (reg_register _) as [id r']. left. assumption.
+  - destruct (w_bgp w !! b) as [[id c]|]; [|left; assumption]. destruct u; left; assumption.
+  - destruct (w_bgp w !! b) as [[id c]|]; left; assumption.
+  - left. assumption.
+  - left. assumption.
+Qed.
+
+Lemma src_key_unit1 g k : (k < 8)%N -> unit1_key (src_key g k) = on_unit1 k.
+Proof.
+  intros Hk. unfold unit1_key, src_key, on_unit1. destruct (k <? 4)%N eqn:E.
+  - apply N.ltb_lt in E. replace ((k + 8 * g) mod 8)%N with k; [apply N.ltb_lt; exact E|].
+    rewrite N.mul_comm, N.mod_add by lia. symmetry. apply N.mod_small. lia.
+  - apply N.ltb_ge in E. rewrite N.mod_small by lia. apply N.ltb_ge. exact E.
+Qed.
+
+Lemma unit1_keys_unit1 g key : key ∈ unit1_keys g -> unit1_key key = true.
+Proof.
+  intros (k & Hk & ->)%elem_of_unit1_keys. unfold unit1_key.
+  rewrite N.mul_comm, N.mod_add by lia. rewrite N.mod_small by lia. apply N.ltb_lt. exact Hk.
+Qed.
+
+Lemma i_step_sessions_ok st o : sessions_ok st -> sessions_ok (i_step false st o).
+Proof.
+  intros Inv. destruct o as [[wo|s|y|nv|]|b]; cbn [i_step]; try exact Inv.
+  - (* traffic *)
+    destruct (wop_router wo) as [k|] eqn:Ek.
+    + destruct (8 <=? k)%N eqn:E8; [exact Inv|]. apply N.leb_gt in E8.
+      destruct (on_unit1 k && negb (is_run st)) eqn:Eg; [exact Inv|].
+      intros key Hs Hu. cbn [is_e is_run is_gen] in *. rewrite e_step_w in Hs.
+      apply wstep_routers_dom in Hs as [Hs|Hc].
+      * apply (Inv key); assumption.
+      * assert (key = src_key (is_gen st) k) as ->.
+        { destruct wo; cbn [wop_router] in Ek; try discriminate; cbn [wop_rekey] in Hc; injection Ek as ->; congruence. }
+        rewrite src_key_unit1 in Hu by exact E8. rewrite Hu in Eg. cbn [andb] in Eg.
+        apply negb_false_iff in Eg. split; [exact Eg|].
+        apply elem_of_unit1_keys. exists k. unfold on_unit1 in Hu. apply N.ltb_lt in Hu.
+        split; [exact Hu|]. unfold src_key, on_unit1. apply N.ltb_lt in Hu. rewrite Hu. reflexivity.
+    + intros key Hs Hu. cbn [is_e is_run is_gen] in *. rewrite e_step_w in Hs.
+      apply wstep_routers_dom in Hs as [Hs|Hc]; [apply (Inv key); assumption|].
+      rewrite Hc in Ek. discriminate.
+  - (* reload *)
+    destruct (is_run st) eqn:Hr, (is_want st) eqn:Hw; cbn [negb andb].
+    + (* runs and stays *) unfold i_remove. rewrite Hr, Hw. cbn [andb negb].
+      intros key Hs Hu. cbn [is_e is_run is_gen] in *.
+      destruct (Inv key Hs Hu) as [_ Hin]. split; [reflexivity|exact Hin].
+    + (* taken out *)
+      pose proof (removal_is_the_withdrawal_of_its_sessions st Hr Hw) as H. cbn zeta in H. cbn [i_step] in H.
+      rewrite Hr, Hw in H. cbn [negb andb] in H. destruct H as (_ & _ & _ & _ & _ & Hrt). cbn [is_e] in Hrt.
+      intros key Hs Hu. cbn [is_e is_run is_gen] in *. rewrite Hrt in Hs.
+      destruct (bool_decide (key ∈ unit1_keys (is_gen st))) eqn:Eb; [destruct Hs as [x Hx]; discriminate|].
+      apply bool_decide_eq_false in Eb. destruct (Inv key Hs Hu) as [_ Hin]. contradiction.
+    + (* put back *) unfold i_remove. rewrite Hr, Hw. cbn [andb negb].
+      destruct (reg_register _) as [uid r'] eqn:Er.
+      intros key Hs Hu. cbn [is_e is_run is_gen es_map_w es_w w_set_reg w_routers] in *.
+      destruct (Inv key Hs Hu) as [Hf _]. congruence.
+    + unfold i_remove. rewrite Hr, Hw. cbn [andb negb].
+      intros key Hs Hu. cbn [is_e is_run is_gen] in *.
+      destruct (Inv key Hs Hu) as [Hf _]. congruence.
+Qed.
+
+Lemma i_init_sessions_ok s0 n0 : sessions_ok (i_init s0 n0).
+Proof. intros key [x Hx]. cbn in Hx. rewrite lookup_empty in Hx. discriminate. Qed.
+
+Lemma i_run_sessions_ok h : forall st, sessions_ok st -> sessions_ok (i_run false st h).
+Proof.
+  induction h as [|o h IH]; intros st H; [exact H|]. cbn [i_run fold_left]. apply IH, i_step_sessions_ok, H.
+Qed.
+
+(* after every history of traffic, edits and reloads (removals and returns of bmp-in among them): while no bmp-in unit
+   runs, no router of bmp-in has a session - of any incarnation; and the sessions there are belong to the unit that runs *)
+Theorem no_unit_no_sessions s0 n0 h key :
+  let st := i_run false (i_init s0 n0) h in
+  unit1_key key = true ->
+  (is_run st = false -> w_routers (es_w (is_e st)) !! key = None) /\
+  (is_Some (w_routers (es_w (is_e st)) !! key) -> key ∈ unit1_keys (is_gen st)).
+Proof.
+  cbn zeta. intros Hu. pose proof (i_run_sessions_ok h _ (i_init_sessions_ok s0 n0)) as Inv. split.
+  - intros Hr. destruct (w_routers _ !! key) as [x|] eqn:E; [|reflexivity].
+    destruct (Inv key (ex_intro _ x E) Hu) as [Hr' _]. congruence.
+  - intros Hs. apply (Inv key Hs Hu).
+Qed.
+
+(* GET of the router list: nothing answers for a unit that does not run *)
+Theorem router_list_goes_with_the_unit st : is_run st = false -> i_listed st 0 = None.
+Proof. intros Hr. unfold i_listed. cbn [N.eqb]. rewrite Hr. reflexivity. Qed.
+
+(* ---- the property's reading of the removal ---- *)
+
+Definition wdn' (o : option (bool * N)) : option (bool * N) :=
+  match o with Some v => Some (false, v.2) | None => None end.
+
+Lemma ideal_down_lookup' (rb : gmap (N * N * wid) (bool * N)) ws key :
+  ideal_down rb ws !! key = if ws key.2 then wdn' (rb !! key) else rb !! key.
+Proof.
+  unfold ideal_down. rewrite map_lookup_imap. destruct (rb !! key) as [v|]; cbn; [|destruct (ws key.2); reflexivity].
+  destruct (ws key.2); reflexivity.
+Qed.
+
+Lemma e_step_disconnect_spec st key :
+  es_s (e_step false st (EW (WDisconnect key))) = (sstep (es_s st) (WDisconnect key)).1.
+Proof. cbn [e_step]. destruct (wstep (es_w st) (WDisconnect key)) as [w' out]. reflexivity. Qed.
+
+Lemma sstep_disconnect_spec sw key :
+  s_sess (sstep sw (WDisconnect key)).1 = delete key (s_sess sw) /\
+  forall f p x, s_rib (sstep sw (WDisconnect key)).1 !! (f, p, x) =
+                if bool_decide (x.1 = key) && bool_decide (is_Some (s_sess sw !! key))
+                then wdn' (s_rib sw !! (f, p, x)) else s_rib sw !! (f, p, x).
+Proof.
+  cbn [sstep]. destruct (s_sess sw !! key) as [v|] eqn:E; cbn [fst s_sess s_rib].
+  - split; [reflexivity|]. intros f p x. rewrite ideal_down_lookup'. cbn [snd].
+    rewrite (bool_decide_true (is_Some (Some v))) by eauto. rewrite andb_true_r. reflexivity.
+  - split; [symmetry; apply delete_notin; exact E|]. intros f p x.
+    rewrite (bool_decide_false (is_Some None)) by (intros [? ?]; discriminate). rewrite andb_false_r. reflexivity.
+Qed.
+
+(* In the property's reading the removal is the end of every session bmp-in had: the routes of every peer of those
+   routers are withdrawn, attributes kept, and no other route changes *)
+Lemma spec_after_disconnects keys : forall st, NoDup keys ->
+  let st' := fold_left (e_step false) (disc_ops keys) st in
+  (forall key, s_sess (es_s st') !! key = if bool_decide (key ∈ keys) then None else s_sess (es_s st) !! key) /\
+  forall f p x, s_rib (es_s st') !! (f, p, x) =
+                if bool_decide (x.1 ∈ keys) && bool_decide (is_Some (s_sess (es_s st) !! x.1))
+                then wdn' (s_rib (es_s st) !! (f, p, x)) else s_rib (es_s st) !! (f, p, x).
+Proof.
+  induction keys as [|a keys IH]; intros st Hnd; cbn zeta.
+  - cbn [disc_ops map fold_left]. split.
+    + intros key. rewrite bool_decide_false by apply not_elem_of_nil. reflexivity.
+    + intros f p x. rewrite (bool_decide_false (x.1 ∈ [])) by apply not_elem_of_nil. reflexivity.
+  - apply NoDup_cons in Hnd as [Ha Hnd]. cbn [disc_ops map fold_left]. fold (disc_ops keys).
+    specialize (IH (e_step false st (EW (WDisconnect a))) Hnd). cbn zeta in IH. destruct IH as [I1 I2].
+    rewrite e_step_disconnect_spec in I1, I2.
+    destruct (sstep_disconnect_spec (es_s st) a) as [S1 S2]. split.
+    + intros key. rewrite I1, S1. destruct (decide (key = a)) as [->|Hne].
+      * rewrite lookup_delete. rewrite (bool_decide_true (a ∈ a :: keys)) by apply elem_of_list_here.
+        destruct (bool_decide (a ∈ keys)); reflexivity.
+      * rewrite lookup_delete_ne by congruence. destruct (decide (key ∈ keys)) as [Hin|Hin].
+        -- rewrite (bool_decide_true (key ∈ keys)) by exact Hin.
+           rewrite (bool_decide_true (key ∈ a :: keys)) by (apply elem_of_list_further; exact Hin). reflexivity.
+        -- rewrite (bool_decide_false (key ∈ keys)) by exact Hin.
+           rewrite (bool_decide_false (key ∈ a :: keys)) by (apply not_elem_of_cons; split; assumption). reflexivity.
+    + intros f p x. rewrite I2, S1, S2. destruct (decide (x.1 = a)) as [Hxa|Hne].
+      * rewrite (bool_decide_true (x.1 = a)) by exact Hxa.
+        rewrite (bool_decide_true (x.1 ∈ a :: keys)) by (rewrite Hxa; apply elem_of_list_here).
+        rewrite (bool_decide_false (x.1 ∈ keys)) by (rewrite Hxa; exact Ha). cbn [andb]. rewrite Hxa. reflexivity.
+      * rewrite (bool_decide_false (x.1 = a)) by exact Hne. cbn [andb]. rewrite lookup_delete_ne by congruence.
+        destruct (decide (x.1 ∈ keys)) as [Hin|Hin].
+        -- rewrite (bool_decide_true (x.1 ∈ keys)) by exact Hin.
+           rewrite (bool_decide_true (x.1 ∈ a :: keys)) by (apply elem_of_list_further; exact Hin). reflexivity.
+        -- rewrite (bool_decide_false (x.1 ∈ keys)) by exact Hin.
+           rewrite (bool_decide_false (x.1 ∈ a :: keys)) by (apply not_elem_of_cons; split; assumption). reflexivity.
+Qed.
+
+Theorem removal_in_the_property_reading st :
+  is_run st = true -> is_want st = false ->
+  let st' := i_step false st (IE EReload) in
+  forall f p x, s_rib (es_s (is_e st')) !! (f, p, x) =
+                if bool_decide (x.1 ∈ unit1_keys (is_gen st)) && bool_decide (is_Some (s_sess (es_s (is_e st)) !! x.1))
+                then wdn' (s_rib (es_s (is_e st)) !! (f, p, x)) else s_rib (es_s (is_e st)) !! (f, p, x).
+Proof.
+  intros Hr Hw. cbn zeta. cbn [i_step]. unfold i_remove. rewrite Hr, Hw. cbn [andb negb].
+  rewrite (i_removal_ops_val st Hr Hw).
+  destruct (spec_after_disconnects (unit1_keys (is_gen st)) (is_e st) (unit1_keys_nodup _)) as [_ H]. cbn zeta in H.
+  intros f p x. cbn [is_e]. rewrite <- H. reflexivity.
+Qed.
+
+(* ---- the code as it was: the defect, and the repaired code on the same history ---- *)
+Definition removal_witness : list iop :=
+  [IE (EW (WConnect 0)); IE (EW (WMsg 0 MInit)); IE (EW (WMsg 0 (MPeerUp (0, 0, 0, 0, 1, 65001, 1)%N false)));
+   IE (EW (WMsg 0 (MRoute (0, 0, 0, 0, 1, 65001, 1)%N (Some (URoutes 0 [1%N] 3 0 [])))));
+   IIngress false; IE EReload].
+
+Theorem legacy_removal_leaves_routes_refuted :
+  let stl := i_run true (i_init SNone 0) removal_witness in
+  let stf := i_run false (i_init SNone 0) removal_witness in
+  (exists id, rib_query (ru_rib (es_rib (is_e stl))) 0 1 = [(id, true, 3%N)]) /\
+  (exists id, rib_query (ru_rib (es_rib (is_e stf))) 0 1 = [(id, false, 3%N)]) /\
+  ideal_query (s_rib (es_s (is_e stl))) 0 1 = [((0%N, (0, 0, 0, 0, 1, 65001, 1)%N), false, 3%N)] /\
+  ideal_query (s_rib (es_s (is_e stf))) 0 1 = [((0%N, (0, 0, 0, 0, 1, 65001, 1)%N), false, 3%N)] /\
+  is_run stl = false /\ w_routers (es_w (is_e stl)) !! 0%N = None.
+Proof. vm_compute. split; [eexists; reflexivity|]. split; [eexists; reflexivity|]. repeat split; reflexivity. Qed.
+
+(* non-vacuity: a router on each ingress unit, each with a route of prefix 1; bmp-in is taken out, put back, router 0
+   returns and announces again: its new session is a new source (key 8), the old route stays withdrawn, the route of
+   the other unit's router was never touched *)
+Definition ingress_example : list iop :=
+  [IE (EW (WConnect 0)); IE (EW (WConnect 4)); IE (EW (WMsg 0 MInit)); IE (EW (WMsg 4 MInit));
+   IE (EW (WMsg 0 (MPeerUp (0, 0, 0, 0, 1, 65001, 1)%N false))); IE (EW (WMsg 4 (MPeerUp (0, 0, 0, 0, 1, 65001, 1)%N false)));
+   IE (EW (WMsg 0 (MRoute (0, 0, 0, 0, 1, 65001, 1)%N (Some (URoutes 0 [1%N] 3 0 [])))));
+   IE (EW (WMsg 4 (MRoute (0, 0, 0, 0, 1, 65001, 1)%N (Some (URoutes 0 [1%N] 4 0 [])))));
+   IIngress false; IE EReload; IIngress true; IE EReload;
+   IE (EW (WConnect 0)); IE (EW (WMsg 0 MInit)); IE (EW (WMsg 0 (MPeerUp (0, 0, 0, 0, 1, 65001, 1)%N false)));
+   IE (EW (WMsg 0 (MRoute (0, 0, 0, 0, 1, 65001, 1)%N (Some (URoutes 0 [1%N] 5 0 [])))))].
+
+Lemma ingress_example_ok :
+  let st := i_run false (i_init SNone 0) ingress_example in
+  is_run st = true /\ is_gen st = 1%N /\ i_listed st 0 = Some 1%N /\ i_listed st 1 = Some 1%N /\
+  map (fun e : N * bool * N => (e.1.2, e.2)) (rib_query (ru_rib (es_rib (is_e st))) 0 1) = [(true, 5%N); (false, 3%N); (true, 4%N)] /\
+  map fst (w_ids (es_w (is_e st))) =
+    [(0%N, (0, 0, 0, 0, 1, 65001, 1)%N); (4%N, (0, 0, 0, 0, 1, 65001, 1)%N); (8%N, (0, 0, 0, 0, 1, 65001, 1)%N)].
+Proof. vm_compute. repeat split; reflexivity. Qed.
+
+(* ---- the same with the standard library's list membership and the readings of E2eModel (for statements that do not
+   use std++ notation) ---- *)
+
+Theorem removed_unit_withdraws_its_routes_std st k rid s id key :
+  is_run st = true -> is_want st = false ->
+  (k < 4)%N -> i_session st (k + 8 * is_gen st)%N = Some (rid, s) -> In id (i_children st rid) ->
+  k_mui key = id -> (k_fam key < 4)%N ->
+  i_rib_lookup (i_step false st (IE EReload)) key = withdrawn_of (i_rib_lookup st key).
+Proof.
+  intros Hr Hw Hk Hs Hid Hm Hf. unfold i_rib_lookup, withdrawn_of.
+  rewrite (removed_unit_withdraws_its_routes st k rid s id key Hr Hw Hk Hs); try assumption.
+  - destruct (rib_lookup _ key) as [[? ?]|]; reflexivity.
+  - apply elem_of_list_In. exact Hid.
+Qed.
+
+Theorem removal_spares_other_ingresses_std st :
+  is_run st = true -> is_want st = false ->
+  let st' := i_step false st (IE EReload) in
+  (forall key,
+     (forall k rid s, (k < 4)%N -> i_session st (k + 8 * is_gen st)%N = Some (rid, s) -> ~ In (k_mui key) (i_children st rid)) ->
+     i_rib_lookup st' key = i_rib_lookup st key) /\
+  (forall k, (4 <= k < 8)%N -> i_session st' k = i_session st k) /\
+  (forall rid, i_children st' rid = i_children st rid).
+Proof.
+  intros Hr Hw. cbn zeta. destruct (removal_spares_other_ingresses st Hr Hw) as (H1 & H2 & H3). cbn zeta in H1, H2.
+  split; [|split].
+  - intros key Hno. apply H1. intros k rid s Hk Hs Hin. apply (Hno k rid s Hk Hs). apply elem_of_list_In. exact Hin.
+  - intros k [Hlo Hhi]. apply H2; [|exact Hhi]. unfold on_unit1. apply N.ltb_ge. exact Hlo.
+  - intros rid. unfold i_children. rewrite H3. reflexivity.
+Qed.
+
+Theorem removal_ends_its_sessions_std st :
+  is_run st = true -> is_want st = false ->
+  let st' := i_step false st (IE EReload) in
+  is_run st' = false /\ i_listed st' 0 = None /\ forall k, (k < 4)%N -> i_session st' (k + 8 * is_gen st)%N = None.
+Proof.
+  intros Hr Hw. cbn zeta.
+  destruct (removal_is_the_withdrawal_of_its_sessions st Hr Hw) as (H1 & _ & _ & _ & _ & H6). cbn zeta in H6.
+  split; [exact H1|]. split; [apply router_list_goes_with_the_unit, H1|].
+  intros k Hk. unfold i_session. rewrite H6. rewrite bool_decide_true; [reflexivity|].
+  apply elem_of_unit1_keys. exists k. split; [exact Hk|reflexivity].
+Qed.
+
+Theorem added_unit_is_a_new_parent_std lg st :
+  is_run st = false -> is_want st = true ->
+  let st' := i_step lg st (IE EReload) in
+  is_run st' = true /\ is_gen st' = (is_gen st + 1)%N /\
+  is_uid st' = serial (w_reg (es_w (is_e st))) /\
+  (forall key, i_rib_lookup st' key = i_rib_lookup st key) /\
+  (forall key, i_session st' key = i_session st key) /\
+  (forall rid, i_children st' rid = i_children st rid).
+Proof.
+  intros Hr Hw. cbn zeta. destruct (added_unit_is_a_new_parent lg st Hr Hw) as (H1 & H2 & H3 & H4 & H5 & H6). cbn zeta in *.
+  split; [exact H1|]. split; [exact H2|]. split; [exact H3|]. split; [|split].
+  - intros key. unfold i_rib_lookup. rewrite H4. reflexivity.
+  - intros key. unfold i_session. rewrite H5. reflexivity.
+  - intros rid. unfold i_children, reg_ids_for_parent. rewrite H6. reflexivity.
+Qed.
+
+Theorem no_unit_no_sessions_std s0 n0 h k g :
+  let st := i_run false (i_init s0 n0) h in
+  (k < 4)%N ->
+  (is_run st = false -> i_session st (k + 8 * g)%N = None) /\
+  (i_session st (k + 8 * g)%N <> None -> is_run st = true /\ g = is_gen st).
+Proof.
+  cbn zeta. intros Hk.
+  assert (Hu : unit1_key (k + 8 * g) = true).
+  { apply (unit1_keys_unit1 g). apply elem_of_unit1_keys. exists k. split; [exact Hk|reflexivity]. }
+  pose proof (i_run_sessions_ok h _ (i_init_sessions_ok s0 n0)) as Inv. unfold i_session. split.
+  - intros Hr. destruct (w_routers _ !! _) as [x|] eqn:E; [|reflexivity].
+    destruct (Inv _ (ex_intro _ x E) Hu) as [Hr' _]. congruence.
+  - intros Hs. destruct (w_routers _ !! _) as [x|] eqn:E; [|congruence].
+    destruct (Inv _ (ex_intro _ x E) Hu) as [Hr' Hin]. split; [exact Hr'|].
+    apply elem_of_unit1_keys in Hin as (k' & Hk' & Heq). nia.
+Qed.
+
+Lemma wdn'_withdrawn_of o : wdn' o = withdrawn_of o.
+Proof. destruct o as [[? ?]|]; reflexivity. Qed.
+
+Theorem removal_in_the_property_reading_std st :
+  is_run st = true -> is_want st = false ->
+  let st' := i_step false st (IE EReload) in
+  forall f p (x : wid),
+    i_spec_lookup st' f p x =
+    if (existsb (N.eqb (fst x)) (map (fun k => k + 8 * is_gen st)%N [0; 1; 2; 3]%N)) && i_spec_session st (fst x)
+    then withdrawn_of (i_spec_lookup st f p x) else i_spec_lookup st f p x.
+Proof.
+  intros Hr Hw. cbn zeta. intros f p x.
+  pose proof (removal_in_the_property_reading st Hr Hw) as H. cbn zeta in H. specialize (H f p x).
+  unfold i_spec_lookup, i_spec_session. etransitivity; [exact H|]. clear H.
+  assert (E1 : bool_decide (x.1 ∈ unit1_keys (is_gen st)) = existsb (N.eqb (fst x)) (map (fun k => k + 8 * is_gen st)%N [0; 1; 2; 3]%N)).
+  { apply bool_ext_iff. rewrite bool_decide_eq_true, existsb_exists. rewrite elem_of_unit1_keys. split.
+    - intros (k & Hk & ->). exists (k + 8 * is_gen st)%N. split; [|apply N.eqb_refl].
+      apply in_map_iff. exists k. split; [reflexivity|]. cbn. lia.
+    - intros (y & Hy & He). apply N.eqb_eq in He. subst y. apply in_map_iff in Hy as (k & <- & Hk).
+      exists k. split; [cbn in Hk; lia|reflexivity]. }
+  assert (E2 : bool_decide (is_Some (s_sess (es_s (is_e st)) !! x.1)) = match s_sess (es_s (is_e st)) !! x.1 with Some _ => true | None => false end).
+  { destruct (s_sess _ !! x.1); [apply bool_decide_true; eauto|apply bool_decide_false; intros [? ?]; discriminate]. }
+  rewrite E1, E2.
+  destruct (_ && _); [apply wdn'_withdrawn_of|reflexivity].
+Qed.
+
+(* the removal, as every RIB unit that lives through the reload takes it: ONE WithdrawBulk of the ingress ids registered
+   under the routers that were connected to bmp-in (what the clean-up of each of their connections sends, together) *)
+Theorem removal_is_one_bulk_withdrawal_std st :
+  is_run st = true -> is_want st = false ->
+  let st' := i_step false st (IE EReload) in
+  let ids := removed_ids (es_w (is_e st)) (map (src_key (is_gen st)) unit1_addrs) in
+  ru_rib (es_rib (is_e st')) = rib_apply (ru_rib (es_rib (is_e st))) (UWithdrawBulk ids) /\
+  ru_filter (es_rib (is_e st')) = ru_filter (es_rib (is_e st)) /\
+  forall r, es_rib2 (is_e st) = Some r -> es_rib2kind (is_e st) = 1%N -> ef_rib2 (es_file (is_e st)) = 1%N ->
+    es_rib2 (is_e st') = Some (MkRunit (ru_filter r) (ru_born r) (rib_apply (ru_rib r) (UWithdrawBulk ids))).
+Proof.
+  intros Hr Hw. cbn zeta.
+  destruct (removal_is_the_withdrawal_of_its_sessions st Hr Hw) as (_ & H2 & H3 & _). cbn zeta in H3.
+  split; [exact H3|]. split; [exact H2|].
+  intros r H Hk Hf. apply (removal_reaches_second_rib st r Hr Hw H Hk Hf).
+Qed.
+
+Theorem legacy_removal_leaves_routes_refuted_std :
+  let stl := i_run true (i_init SNone 0) removal_witness in
+  let stf := i_run false (i_init SNone 0) removal_witness in
+  (exists id, rib_query (ru_rib (es_rib (is_e stl))) 0 1 = [(id, true, 3%N)]) /\
+  (exists id, rib_query (ru_rib (es_rib (is_e stf))) 0 1 = [(id, false, 3%N)]) /\
+  ideal_query (s_rib (es_s (is_e stl))) 0 1 = [((0%N, (0, 0, 0, 0, 1, 65001, 1)%N), false, 3%N)] /\
+  ideal_query (s_rib (es_s (is_e stf))) 0 1 = [((0%N, (0, 0, 0, 0, 1, 65001, 1)%N), false, 3%N)] /\
+  is_run stl = false /\ i_session stl 0%N = None.
+Proof. exact legacy_removal_leaves_routes_refuted. Qed.
+
+(* ---- a router of the unit that a reload has just started is a NEW source ---- *)
+
+(* The first connection of a router address to the bmp-in unit that a reload has started: the unit looks the router
+   up under ITS OWN ingress id, which no earlier source has as parent - nothing is found, the router is registered
+   afresh: it gets the register's next id, an id that no source had (so none of the ids whose routes the removal
+   withdrew is used again, and known finding C03-1 - the sticky withdrawn marker of a REUSED id - cannot apply to what
+   it announces) *)
+Theorem router_of_added_unit_is_a_new_source lg st k :
+  is_run st = false -> is_want st = true -> (k < 4)%N ->
+  next_id_unused (w_reg (es_w (is_e st))) ->
+  let st1 := i_step lg st (IE EReload) in
+  let st2 := i_step lg st1 (IE (EW (WConnect k))) in
+  is_uid st1 = serial (w_reg (es_w (is_e st))) /\
+  i_rid st2 k = Some (serial (w_reg (es_w (is_e st1)))).
+Proof.
+  intros Hr Hw Hk Hnext. cbn zeta.
+  destruct (added_unit_is_a_new_parent lg st Hr Hw) as (H1 & H2 & H3 & _ & _ & H6). cbn zeta in *.
+  set (st1 := i_step lg st (IE EReload)) in *. split; [exact H3|].
+  assert (Hon : on_unit1 k = true) by (apply N.ltb_lt; exact Hk).
+  assert (H8 : (8 <=? k)%N = false) by (apply N.leb_gt; lia).
+  unfold i_rid. cbn [i_step wop_router]. rewrite H8, Hon, H1. cbn [andb negb is_e is_gen].
+  cbn [wop_rekey e_step]. cbn [es_map_w es_w]. cbn [wstep w_set_unit w_reg w_unit].
+  set (r1 := w_reg (es_w (is_e st1))) in *.
+  set (key := src_key (is_gen st1) k).
+  assert (Hnone : reg_find_all router_match r1 (router_query (is_uid st1) key) = []).
+  { destruct (reg_find_all router_match r1 (router_query (is_uid st1) key)) as [|id l] eqn:E; [reflexivity|].
+    assert (Hin : id ∈ reg_find_all router_match r1 (router_query (is_uid st1) key)) by (rewrite E; apply elem_of_list_here).
+    apply elem_of_find_all in Hin as (inf & Hinf & Hm). apply router_match_spec in Hm as (_ & Hp & _).
+    cbn [router_query i_parent] in Hp. rewrite H3 in Hp. rewrite H6 in Hinf.
+    exfalso. apply (Hnext id inf Hinf Hp). }
+  unfold find_or_register. rewrite Hnone. unfold reg_register. cbn [fst snd es_w w_routers].
+  fold key. rewrite lookup_insert. reflexivity.
+Qed.
